@@ -38,6 +38,12 @@ impl Default for RequestHead {
 
 impl Head for RequestHead {
     fn clear(&mut self) {
+        // a recycled head must be indistinguishable from `RequestHead::default()`: not every
+        // producer (e.g. `Request::new()`, `test::TestRequest::finish()`) overwrites these fields
+        self.method = Method::default();
+        self.uri = Uri::default();
+        self.version = Version::HTTP_11;
+        self.peer_addr = None;
         self.flags = Flags::empty();
         self.headers.clear();
     }
